@@ -294,7 +294,19 @@ fn classes(v: &mut Verdict, case: &Case, ex: &[Expect]) {
     let mut writers_dropped = false;
     let mut output_dropped = false;
     let mut reconnected = false;
-    for (op, e) in case.ops.iter().zip(ex.iter()) {
+    // size of the (reference) map before each op
+    let sizes: Vec<usize> = {
+        let mut rs = RefState::new(case.kind, case.events_when_not_synced, case.terminate_on_unlinked, false);
+        case.ops
+            .iter()
+            .map(|op| {
+                let len = rs.linked.as_ref().map(|l| l.map.len()).unwrap_or(0);
+                rs.step(op);
+                len
+            })
+            .collect()
+    };
+    for (idx, (op, e)) in case.ops.iter().zip(ex.iter()).enumerate() {
         if let DOp::N(n) = op {
             let linked = matches!(e.phase, Phase::Sup | Phase::Pre | Phase::Syn);
             v.class_if(reconnected && n.is_event() && e.phase == Phase::Sup, "suppressed-event-after-reconnect");
@@ -307,8 +319,19 @@ fn classes(v: &mut Verdict, case: &Case, ex: &[Expect]) {
             if n.is_event() && e.phase == Phase::Sup {
                 sup_event = true;
             }
+            v.class_if(matches!(n, Note::Fill { .. }) && linked, "fill(bulk-prelude)");
             if matches!(n, Note::Take(_) | Note::Drop(_)) && linked {
                 take_drop = true;
+                let live = matches!(e.phase, Phase::Pre | Phase::Syn);
+                let len = sizes[idx];
+                let removed = match n {
+                    Note::Take(k) => len.saturating_sub((*k).min(len as u64) as usize),
+                    Note::Drop(k) => (*k).min(len as u64) as usize,
+                    _ => 0,
+                };
+                v.class_if(len > 64, "map>64-at-take/drop");
+                v.class_if(len > 64 && live && removed >= 2 && removed < len, "map>64-at-take/drop:live,removes>=2,partial");
+                v.class_if((60..=70).contains(&len), "map-60..70-at-take/drop");
                 v.class_if(e.phase == Phase::Sup, "take/drop-suppressed");
             }
             v.class_if(matches!(n, Note::Clear) && e.phase == Phase::Sup, "clear-suppressed");
@@ -485,12 +508,22 @@ fn arb_raw() -> impl Strategy<Value = Raw> {
         .prop_map(|(c, e, k, v, n)| Raw { c, e, k, v, n })
 }
 
-fn event_of(kind: Kind, r: &Raw) -> Note {
+/// Marks a take/drop count that is to be chosen relative to the size of the map (bulk regime).
+const REL: u64 = 1 << 40;
+
+fn event_of(kind: Kind, r: &Raw, bulk: bool) -> Note {
     match kind {
         Kind::Value => Note::Set(r.v),
         Kind::Map => {
             let k = KEYS[pick_index(r.k, KEYS.len())];
             match r.e {
+                0..=29 if bulk => {
+                    // sizes around the 64/65 boundary and well above it
+                    let n = if r.v % 3 == 0 { 59 + r.k % 12 } else { 65 + r.k % 236 };
+                    Note::Fill { n, seed: r.k / 300 }
+                }
+                186..=219 if bulk && r.v % 5 != 0 => Note::Take(REL | r.k as u64),
+                220..=255 if bulk && r.v % 5 != 0 => Note::Drop(REL | r.k as u64),
                 0..=114 => Note::Upd(k, r.v),
                 115..=165 => Note::Rem(k),
                 166..=185 => Note::Clear,
@@ -518,7 +551,7 @@ fn write_of(kind: Kind, r: &Raw) -> Write {
 /// Turn raw choices into a sequence a well-behaved link can produce:
 /// `(linked event* [synced event*] unlinked)*`, a refused link (`unlinked` while unlinked), for
 /// value downlinks at least one event before `synced`; local writes anywhere.
-fn legalise(kind: Kind, raws: &[Raw], with_writes: bool, read_only_from_start: bool, term: bool) -> Vec<DOp> {
+fn legalise(kind: Kind, raws: &[Raw], with_writes: bool, read_only_from_start: bool, term: bool, bulk: bool) -> Vec<DOp> {
     #[derive(PartialEq)]
     enum St {
         Unl,
@@ -572,7 +605,7 @@ fn legalise(kind: Kind, raws: &[Raw], with_writes: bool, read_only_from_start: b
             St::Lnk { has_value } => match r.c {
                 0..=149 => {
                     st = St::Lnk { has_value: true };
-                    DOp::N(event_of(kind, r))
+                    DOp::N(event_of(kind, r, bulk))
                 }
                 150..=199 => {
                     if kind == Kind::Map || has_value {
@@ -580,7 +613,7 @@ fn legalise(kind: Kind, raws: &[Raw], with_writes: bool, read_only_from_start: b
                         DOp::N(Note::Synced)
                     } else {
                         st = St::Lnk { has_value: true };
-                        DOp::N(event_of(kind, r))
+                        DOp::N(event_of(kind, r, bulk))
                     }
                 }
                 200..=211 => {
@@ -590,17 +623,17 @@ fn legalise(kind: Kind, raws: &[Raw], with_writes: bool, read_only_from_start: b
                 _ if with_writes => DOp::W(write_of(kind, r)),
                 _ => {
                     st = St::Lnk { has_value: true };
-                    DOp::N(event_of(kind, r))
+                    DOp::N(event_of(kind, r, bulk))
                 }
             },
             St::Syn => match r.c {
-                0..=179 => DOp::N(event_of(kind, r)),
+                0..=179 => DOp::N(event_of(kind, r, bulk)),
                 180..=204 => {
                     st = St::Unl;
                     DOp::N(Note::Unlinked)
                 }
                 _ if with_writes => DOp::W(write_of(kind, r)),
-                _ => DOp::N(event_of(kind, r)),
+                _ => DOp::N(event_of(kind, r, bulk)),
             },
         };
         ops.push(op);
@@ -609,13 +642,35 @@ fn legalise(kind: Kind, raws: &[Raw], with_writes: bool, read_only_from_start: b
 }
 
 /// Arbitrary order (the illegal class).
-fn anyorder(kind: Kind, raws: &[Raw]) -> Vec<DOp> {
+/// Bulk regime post-pass: at most two `Fill`s per case (cost), and the relative take/drop counts
+/// are resolved against the size the map has at that point: 0..=len+2.
+fn resolve_bulk(kind: Kind, ops: &mut [DOp]) {
+    let mut rs = RefState::new(kind, true, false, false);
+    let mut fills = 0;
+    for op in ops.iter_mut() {
+        let len = rs.linked.as_ref().map(|l| l.map.len()).unwrap_or(0);
+        match op {
+            DOp::N(Note::Fill { seed, .. }) => {
+                fills += 1;
+                if fills > 2 {
+                    *op = DOp::N(Note::Upd(100 + (*seed as i32 % 50), 1));
+                }
+            }
+            DOp::N(Note::Take(n)) if *n & REL != 0 => *n = pick_index((*n & 0xffff) as u16, len + 3) as u64,
+            DOp::N(Note::Drop(n)) if *n & REL != 0 => *n = pick_index((*n & 0xffff) as u16, len + 3) as u64,
+            _ => {}
+        }
+        rs.step(op);
+    }
+}
+
+fn anyorder(kind: Kind, raws: &[Raw], bulk: bool) -> Vec<DOp> {
     raws.iter()
         .map(|r| match r.c {
             0..=39 => DOp::N(Note::Linked),
             40..=79 => DOp::N(Note::Synced),
             80..=109 => DOp::N(Note::Unlinked),
-            110..=229 => DOp::N(event_of(kind, r)),
+            110..=229 => DOp::N(event_of(kind, r, bulk)),
             250..=252 => DOp::C(Ctl::DropWriters),
             253 | 254 => DOp::C(Ctl::DropOutput),
             255 => DOp::C(Ctl::Stop),
@@ -638,10 +693,14 @@ fn arb_case(kind: Kind, max_ops: usize, legal: bool) -> impl Strategy<Value = Ca
             1 => Just(vec![true; max_ops]),
         ],
         prop_oneof![3 => Just(None), 2 => (1usize..12).prop_map(Some)],
+        prop_oneof![11 => Just(false), 1 => Just(true)],
     )
-        .prop_map(move |((ewns, term, seed, with_writes, ro_start, close_input), budget, in_cap, raws, mut batch, drop_cb)| {
-            let mut ops = if legal { legalise(kind, &raws, with_writes, ro_start, term || drop_cb.is_some()) } else { anyorder(kind, &raws) };
+        .prop_map(move |((ewns, term, seed, with_writes, ro_start, close_input), budget, in_cap, raws, mut batch, drop_cb, bulk)| {
+            let mut ops = if legal { legalise(kind, &raws, with_writes, ro_start, term || drop_cb.is_some(), bulk && kind == Kind::Map) } else { anyorder(kind, &raws, bulk && kind == Kind::Map) };
             ops.truncate(max_ops);
+            if bulk && kind == Kind::Map {
+                resolve_bulk(kind, &mut ops);
+            }
             if drop_cb.is_some() {
                 // the position of the drop is a callback, not an op: keep ops that depend on the
                 // hosted handle still existing out of these cases
